@@ -29,9 +29,13 @@ DEFAULT == 0      \* invalid at computed-value time: initial (width) / inherited
 VN == {"a", "b", "c"}
 VDefs == {[k |-> "undef"], [k |-> "lit", v |-> 7], [k |-> "lit", v |-> 9], [k |-> "bad"]}
          \cup {[k |-> "ref", to |-> t, fb |-> f] : t \in VN, f \in {0, 9}}
-VarScn == {[defs |-> d, probefb |-> p, prop |-> pp] : d \in [VN -> VDefs], p \in {0, 5}, pp \in {"width", "text-indent"}}
+         \* a fallback that is itself a reference:  var(--to, var(--to2, 3px))
+         \cup {[k |-> "nest", to |-> t, to2 |-> u] : t \in VN, u \in VN}
+\* probes: width / text-indent: var(--a) or var(--a, 5px) ;  "pair":  margin: var(--a, 1px) var(--b, 2px)
+VarScn(u) == {[defs |-> d, probefb |-> p, prop |-> pp] : d \in [VN -> VDefs], p \in {0, 5}, pp \in {"width", "text-indent"}}
+          \cup {[defs |-> d, probefb |-> 1, prop |-> "pair"] : d \in [VN -> VDefs]}
 
-RefTo(d, x) == IF d[x].k = "ref" THEN {d[x].to} ELSE {}
+RefTo(d, x) == IF d[x].k = "ref" THEN {d[x].to} ELSE IF d[x].k = "nest" THEN {d[x].to, d[x].to2} ELSE {}
 RECURSIVE ReachV(_, _, _)
 ReachV(d, S, n) == IF n = 0 THEN S ELSE ReachV(d, S \cup UNION {RefTo(d, y) : y \in S}, n - 1)
 \* x is on a cycle of references: all properties of a cycle are invalid at computed-value time
@@ -43,10 +47,17 @@ CVal(d, x, fuel) ==
   ELSE CASE d[x].k = "undef" -> INVALID
          [] d[x].k = "lit" -> d[x].v
          [] d[x].k = "bad" -> BAD
+         [] d[x].k = "nest" -> LET t == CVal(d, d[x].to, fuel - 1) IN
+                               IF t # INVALID THEN t ELSE LET u == CVal(d, d[x].to2, fuel - 1) IN IF u # INVALID THEN u ELSE 3
          [] OTHER -> LET t == CVal(d, d[x].to, fuel - 1) IN
                      IF t = INVALID THEN (IF d[x].fb = 0 THEN INVALID ELSE d[x].fb) ELSE t
 \* the computed value of the probe: a number of px, or DEFAULT = invalid at computed-value time
 \* (initial value for width, inherited value for text-indent)
+\* the pair probe: <<margin-top, margin-right>>, both 0 when the declaration is invalid at computed-value time
+PairValue(s) ==
+  LET a == CVal(s.defs, "a", 4)  b == CVal(s.defs, "b", 4)
+      top == IF a = INVALID THEN 1 ELSE a   right == IF b = INVALID THEN 2 ELSE b IN
+  IF top = BAD \/ right = BAD THEN <<0, 0>> ELSE <<top, right>>
 ProbeValue(s) ==
   LET t == CVal(s.defs, "a", 4)
       u == IF t = INVALID THEN (IF s.probefb = 0 THEN INVALID ELSE s.probefb) ELSE t IN
@@ -86,7 +97,16 @@ FlexScn == {"none", "auto", "initial", "2", "2 3", "10px", "2 10px", "2 3 10px",
 FlexValue(t) == CASE t = "none" -> <<0, 0, "auto">> [] t = "auto" -> <<1, 1, "auto">> [] t = "initial" -> <<0, 1, "auto">>
                   [] t = "2" -> <<2, 1, "0">> [] t = "2 3" -> <<2, 3, "0">> [] t = "10px" -> <<1, 1, "10px">>
                   [] t = "2 10px" -> <<2, 1, "10px">> [] t = "2 3 10px" -> <<2, 3, "10px">> [] t = "0 auto" -> <<0, 1, "auto">>
-ShortScn == {[kind |-> "trbl", s |-> x] : x \in TrblScn} \cup {[kind |-> "border", s |-> x] : x \in BorderScn}
+\* columns: <width> || <count> in any order, `auto` for either (CSS Multicol 1): <<column-width, column-count>> ; "auto" | "10em" | "3"
+ColumnsScn == {"auto", "10em", "3", "auto auto", "auto 10em", "10em auto", "auto 3", "3 auto", "10em 3", "3 10em"}
+ColumnsValue(t) == CASE t \in {"auto", "auto auto"} -> <<"auto", "auto">> [] t \in {"10em", "auto 10em", "10em auto"} -> <<"10em", "auto">>
+                     [] t \in {"3", "auto 3", "3 auto"} -> <<"auto", "3">> [] OTHER -> <<"10em", "3">>
+\* list-style: type, position, image in any order, omitted parts reset
+ListScn == {[parts |-> q] : q \in UNION {Perms(S) : S \in (SUBSET {"type", "position", "image"}) \ {{}}}}
+\* flex-flow: direction and wrap in any order
+FlowScn == {[parts |-> q] : q \in UNION {Perms(S) : S \in (SUBSET {"direction", "wrap"}) \ {{}}}}
+ShortScn == {[kind |-> "trbl", s |-> x] : x \in TrblScn} \cup {[kind |-> "columns", s |-> [t |-> x]] : x \in ColumnsScn}
+            \cup {[kind |-> "list-style", s |-> x] : x \in ListScn} \cup {[kind |-> "flex-flow", s |-> x] : x \in FlowScn} \cup {[kind |-> "border", s |-> x] : x \in BorderScn}
             \cup {[kind |-> "flex", s |-> [t |-> x]] : x \in FlexScn}
 
 ---------------------------------------------------------------------------
@@ -94,13 +114,24 @@ ShortScn == {[kind |-> "trbl", s |-> x] : x \in TrblScn} \cup {[kind |-> "border
 SpellDecls == {"length", "keyword", "color-fn", "url", "shorthand", "important", "string", "multi", "fr", "angle", "resolution", "em"}
 SpellVariants == {"canonical", "upper-name", "upper-keyword", "upper-unit", "upper-function", "comment-between", "extra-space",
                   "comment-before-colon", "newline-tab", "upper-important"}
+\* ASCII case-insensitivity does not extend to non-ASCII look-alikes: with U+212A KELVIN SIGN for k or U+0130 for i
+\* (next to an ASCII capital) a name or keyword is unknown and the declaration is dropped
+LookAlikes == {"kelvin-name", "dotted-i-keyword", "kelvin-keyword"}
+\* properties whose grammar accepts an arbitrary identifier: everywhere else an unknown identifier is an invalid value
+CustomIdentProps == {"font-family", "counter-reset", "counter-increment", "counter-set", "grid-row-start", "grid-row-end",
+                     "grid-column-start", "grid-column-end", "page", "string-set", "list-style-type", "anchor", "font-language-override"}
 SpellScn == {[decl |-> d, variant |-> v] : d \in SpellDecls, v \in SpellVariants}
+            \cup {[decl |-> "look-alike", variant |-> v] : v \in LookAlikes}
+            \* every supported property with the explicit value found for it at run time
+            \cup {[decl |-> "all-properties", variant |-> v, custom |-> CustomIdentProps] : v \in {"upper-value", "upper-name", "garbage-value"}}
 
 ---------------------------------------------------------------------------
 (* Resolution of var() as a transition system with an explicit `stack` of properties being substituted *)
-Init == /\ scn \in CASE Mode = "vars" -> VarScn [] Mode = "blocks" -> BlockScn [] Mode = "shorthands" -> ShortScn [] OTHER -> SpellScn
+Init == /\ scn \in CASE Mode = "vars" -> VarScn(0) [] Mode = "blocks" -> BlockScn [] Mode = "shorthands" -> ShortScn [] OTHER -> SpellScn
+        \* the stack machine covers the single-reference fragment; nested fallbacks and the pair probe are declarative only
         /\ stack = IF Mode = "vars" THEN <<"a">> ELSE <<>>
-        /\ val = [x \in VN |-> UNKNOWN] /\ phase = IF Mode = "vars" THEN "resolve" ELSE "done"
+        /\ val = [x \in VN |-> UNKNOWN]
+        /\ phase = IF Mode = "vars" /\ scn.prop # "pair" /\ (\A x \in VN : scn.defs[x].k # "nest") THEN "resolve" ELSE "done"
 
 Top == stack[Len(stack)]
 \* the property on top needs another one that is not resolved yet: descend, unless that would close a cycle
@@ -130,13 +161,15 @@ NoRepeat == \A i, j \in 1..Len(stack) : i # j => stack[i] # stack[j]
 Terminates == <>(phase = "done")
 \* the stack machine computes the declarative value of --a
 \* (a property that was cut off a cycle keeps INVALID; one never reached keeps UNKNOWN)
-MachineAgrees == (Mode = "vars" /\ phase = "done") => val["a"] = CVal(scn.defs, "a", 4)
+MachineAgrees == (Mode = "vars" /\ phase = "done" /\ val["a"] # UNKNOWN) => val["a"] = CVal(scn.defs, "a", 4)
 
 Emit == phase = "done" =>
-  PrintT(ToJson(CASE Mode = "vars" -> [mode |-> "vars", scn |-> scn, want |-> ProbeValue(scn)]
+  PrintT(ToJson(CASE Mode = "vars" -> [mode |-> "vars", scn |-> scn, want |-> IF scn.prop = "pair" THEN 0 ELSE ProbeValue(scn),
+                                                      pair |-> IF scn.prop = "pair" THEN PairValue(scn) ELSE <<>>]
                   [] Mode = "blocks" -> [mode |-> "blocks", block |-> scn, top |-> BlockValue(scn), bottom |-> BlockBottom(scn)]
                   [] Mode = "shorthands" -> [mode |-> "shorthands", scn |-> scn,
                                              trbl |-> IF scn.kind = "trbl" THEN TRBL(scn.s.vals) ELSE <<>>,
-                                             flex |-> IF scn.kind = "flex" THEN FlexValue(scn.s.t) ELSE <<>>]
+                                             flex |-> IF scn.kind = "flex" THEN FlexValue(scn.s.t) ELSE <<>>,
+                                             columns |-> IF scn.kind = "columns" THEN ColumnsValue(scn.s.t) ELSE <<>>]
                   [] OTHER -> [mode |-> "spellings", scn |-> scn]))
 =============================================================================
